@@ -76,6 +76,10 @@ func verifRefDecode(b []byte) (r verifRef) {
 	if et == 0x88a8 {
 		hl = 22
 	}
+	if n < hl { // truncated VLAN tag(s)
+		r.err = true
+		return
+	}
 	r.offPayload = hl
 	if b[6]&1 != 0 { // multicast / broadcast source: not decoded further
 		return
